@@ -17,7 +17,7 @@ CHECKS = {
    ref="4 C04"),
  'C02': dict(
    text="Raw samples, the band-passed samples (arbitrary filter output) and the boundary are z3 variables; all feasible paths of the real find_extrema are executed for every padded length up to the bound and every reported extremum is proved to be the first raw-signal extreme of its closed half-wave window, nothing else being reported; boundary and first_extrema rules included.",
-   note="Trusted: numpy model (witness-validated on real numpy each run), stub contracts for filter_signal / compute_filter_length (arbitrary output of len(sig); ValueError when both or neither of n_cycles/n_seconds). Bound: padded length <= 8 (quick) / 10 (thorough). Real FIR numerics are not encoded.",
+   note="Trusted: numpy model (witness-validated on real numpy each run), stub contracts for filter_signal / compute_filter_length (arbitrary output of len(sig); ValueError when both or neither of n_cycles/n_seconds). Bound: padded length <= 8 (quick) / 10 (thorough); int16 / uint8 signals (every value of the type, wrap-around modelled) N <= 5 / 6. Real FIR numerics are not encoded.",
    ref="4 C02"),
  'C03': dict(
    text="Samples are unbounded z3 reals and the alternating extrema positions z3 integers; all feasible paths of the real find_zerox are executed and every midpoint is proved equal to the floor-median of the half-height crossings (centre for inverted / all-zero flanks), with count and temporal pairing.",
